@@ -351,3 +351,68 @@ Proof.
     destruct (dec_fields dec fs s) as [[vs r1]|] eqn:E2; [|discriminate]. injection H as <- <-.
     rewrite (dec_fields_ext _ _ _ _ e IH E2). reflexivity.
 Qed.
+
+(* ---------- conformance with docs/reference/binary.md ---------- *)
+
+(* types that contain no 8-bit integer (int8, uint8, or an enum/flags with such a base) *)
+Definition prim8 (p : prim) : bool := match p with PInt8 | PUint8 => true | _ => false end.
+
+Fixpoint no_int8 (t : ty) : bool :=
+  match t with
+  | TPrim p => negb (prim8 p)
+  | TEnum b => negb (prim8 b)
+  | TOpt e | TVec e | TFixVec _ e | TArr _ e | TFixArr _ e | TDynArr e => no_int8 e
+  | TUnion _ cs => forallb no_int8 cs
+  | TMap k e => no_int8 k && no_int8 e
+  | TRec fs => forallb no_int8 fs
+  end.
+
+Lemma enc_int_doc_eq : forall p z, prim8 p = false -> enc_int_doc p z = enc_int p z.
+Proof.
+  intros p z H. unfold enc_int_doc, enc_int. destruct p; cbn in *; try reflexivity; discriminate.
+Qed.
+
+Lemma enc_prim_doc_eq : forall p v, prim8 p = false -> enc_prim enc_int_doc p v = enc_prim enc_int p v.
+Proof.
+  intros p v H. destruct p; destruct v; cbn [enc_prim]; try reflexivity; apply enc_int_doc_eq; assumption.
+Qed.
+
+Lemma map_ext_Forall : forall (A B : Type) (f g : A -> B) l, Forall (fun x => f x = g x) l -> map f l = map g l.
+Proof. intros A B f g l H. induction H; cbn; [reflexivity|]. rewrite H, IHForall. reflexivity. Qed.
+
+Theorem enc_doc_eq : forall t, no_int8 t = true -> forall v, enc_doc t v = enc t v.
+Proof.
+  unfold enc_doc, enc.
+  apply (ty_ind' (fun t => no_int8 t = true -> forall v, enc_with enc_int_doc t v = enc_with enc_int t v)).
+  - intros p H v. cbn [no_int8] in H. apply negb_true_iff in H. cbn [enc_with]. apply enc_prim_doc_eq, H.
+  - intros b H v. cbn [no_int8] in H. apply negb_true_iff in H. destruct v; cbn [enc_with]; try reflexivity.
+    apply enc_int_doc_eq, H.
+  - intros t IH H v. cbn [no_int8] in H. destruct v; cbn [enc_with]; try reflexivity. rewrite IH by assumption. reflexivity.
+  - intros hn cs IH H v. cbn [no_int8] in H. destruct v; cbn [enc_with]; try reflexivity. f_equal.
+    revert i. induction cs as [|c cs IHcs]; intros i; [reflexivity|]. cbn [pick].
+    inversion IH as [|? ? Hc HF]; subst. cbn [forallb] in H. apply andb_true_iff in H. destruct H as [H1 H2].
+    destruct (i =? 0); [apply Hc, H1|apply IHcs; assumption].
+  - intros t IH H v. cbn [no_int8] in H. destruct v; cbn [enc_with]; try reflexivity. f_equal. f_equal.
+    apply map_ext_Forall, Forall_forall. intros x _. apply IH, H.
+  - intros n t IH H v. cbn [no_int8] in H. destruct v; cbn [enc_with]; try reflexivity. f_equal.
+    apply map_ext_Forall, Forall_forall. intros x _. apply IH, H.
+  - intros r t IH H v. cbn [no_int8] in H. destruct v; cbn [enc_with]; try reflexivity. f_equal. f_equal.
+    apply map_ext_Forall, Forall_forall. intros x _. apply IH, H.
+  - intros d t IH H v. cbn [no_int8] in H. destruct v; cbn [enc_with]; try reflexivity. f_equal.
+    apply map_ext_Forall, Forall_forall. intros x _. apply IH, H.
+  - intros t IH H v. cbn [no_int8] in H. destruct v; cbn [enc_with]; try reflexivity. f_equal. f_equal. f_equal.
+    apply map_ext_Forall, Forall_forall. intros x _. apply IH, H.
+  - intros k e IHk IHe H v. cbn [no_int8] in H. apply andb_true_iff in H. destruct H as [H1 H2].
+    destruct v; cbn [enc_with]; try reflexivity. f_equal. f_equal.
+    apply map_ext_Forall, Forall_forall. intros x _. rewrite IHk, IHe by assumption. reflexivity.
+  - intros fs IH H v. cbn [no_int8] in H. destruct v; cbn [enc_with]; try reflexivity.
+    revert vs. induction fs as [|f fs IHfs]; intros vs; [reflexivity|]. cbn [enc_fields].
+    inversion IH as [|? ? Hf HF]; subst. cbn [forallb] in H. apply andb_true_iff in H. destruct H as [H1 H2].
+    destruct vs as [|x xs]; [reflexivity|]. rewrite (Hf H1), (IHfs HF H2). reflexivity.
+Qed.
+
+(* ... and the document and the implementations really do differ on 8-bit integers *)
+Theorem enc_doc_differs_uint8 : enc_doc (TPrim PUint8) (VInt 200) <> enc (TPrim PUint8) (VInt 200).
+Proof. vm_compute. discriminate. Qed.
+Theorem enc_doc_differs_int8 : enc_doc (TPrim PInt8) (VInt 1) <> enc (TPrim PInt8) (VInt 1).
+Proof. vm_compute. discriminate. Qed.
